@@ -43,10 +43,23 @@ type outcome struct {
 	tempo  string
 }
 
-func readAll(r io.Reader) (o outcome) {
+type nopLogger struct{}
+
+func (nopLogger) Printf(format string, vals ...interface{}) {}
+
+func readAll(r io.Reader) (o outcome) { return readAllOpt(r, false) }
+
+// readAllOpt reads with or without the (behaviour-neutral) Log option.
+func readAllOpt(r io.Reader, withLog bool) (o outcome) {
 	var s *smf.SMF
 	var err error
-	if p := ev.TryTimeout(ev.Watchdog, func() { s, err = smf.ReadFrom(r) }); p != "" {
+	if p := ev.TryTimeout(ev.Watchdog, func() {
+		if withLog {
+			s, err = smf.ReadFrom(r, smf.Log(nopLogger{}))
+		} else {
+			s, err = smf.ReadFrom(r)
+		}
+	}); p != "" {
 		return outcome{kind: "panic", detail: p}
 	}
 	switch {
@@ -135,6 +148,9 @@ func run(c Case) (res ev.Result) {
 		return
 	}
 	res.Classes = append(res.Classes, "memory:"+want.kind)
+	// every second fragmented read is made with a logger attached (smf.Log); it is compared with
+	// the read from memory made the same way
+	wantLog := readAllOpt(bytes.NewReader(b), true)
 	var n, nt int64
 	defer func() { counters.AddEnum(n, nt, "") }()
 	try := func(what string, cuts []int, eofWithData bool, r io.Reader) string {
@@ -143,8 +159,12 @@ func run(c Case) (res ev.Result) {
 			nt++
 			res.Nontrivial = true
 		}
-		if d := diff(readAll(r), want); d != "" {
-			return fmt.Sprintf("%s (file of %d bytes, eof-with-data=%v): %s", what, len(b), eofWithData, d)
+		withLog, w := n%2 == 0, want
+		if withLog {
+			w = wantLog
+		}
+		if d := diff(readAllOpt(r, withLog), w); d != "" {
+			return fmt.Sprintf("%s (file of %d bytes, eof-with-data=%v, with smf.Log=%v): %s", what, len(b), eofWithData, withLog, d)
 		}
 		return ""
 	}
@@ -304,9 +324,58 @@ func genCase(t *rapid.T) Case {
 }
 
 var files = ev.NewCheck("C09", "files",
-	"rapid: valid files from the byte-level grammar (C02 domain, payloads <= 200) and from the library's writer (C01 domain), whole or truncated at a drawn offset (for half of the whole files additionally EVERY truncation, each read from memory vs. single read with EOF, byte-wise, last byte together with EOF, two halves); payloads <= 200 bytes, in one case of ten up to 70000 bytes (crossing the 4 KiB / 64 KiB buffer thresholds; for files > 1500 bytes the split points are all offsets around field boundaries and size thresholds plus a stride); per file: one-byte reads, a single read, a bufio.Reader, a reader whose Seek method fails, a real os.Pipe, EVERY single split point, 1..5 random partitions, each with and without the final bytes delivered together with io.EOF; readers never return 0 bytes without error; oracle = differential against smf.ReadFrom(bytes.Reader): both fail or both succeed, same failure kind (nil / ErrMissing / other), deep-equal value (format, division, events, tempo map); the per-fragmentation counts are in part 'fragmentations'",
+	"rapid: valid files from the byte-level grammar (C02 domain, payloads <= 200) and from the library's writer (C01 domain), whole or truncated at a drawn offset (for half of the whole files additionally EVERY truncation, each read from memory vs. single read with EOF, byte-wise, last byte together with EOF, two halves); payloads <= 200 bytes, in one case of ten up to 70000 bytes (crossing the 4 KiB / 64 KiB buffer thresholds; for files > 1500 bytes the split points are all offsets around field boundaries and size thresholds plus a stride); per file: one-byte reads, a single read, a bufio.Reader, a reader whose Seek method fails, a real os.Pipe, EVERY single split point, 1..5 random partitions, each with and without the final bytes delivered together with io.EOF; readers never return 0 bytes without error; every second read with a logger attached through smf.Log (compared with the read from memory made the same way); oracle = differential against smf.ReadFrom(bytes.Reader): both fail or both succeed, same failure kind (nil / ErrMissing / other), deep-equal value (format, division, events, tempo map); the per-fragmentation counts are in part 'fragmentations'",
 	genCase, run)
 
 func TestPropFiles(t *testing.T) { files.Rapid(t, 100, 3000) }
+
+var big = ev.NewCheck("C09", "big-payload-truncations",
+	"enumeration: files whose LAST track holds one sysex / escape / meta payload of 65537, 70000 or 140000 bytes (beyond the 64 KiB block size of the reader), preceded by a small track and an unknown chunk; whole, and truncated inside the payload at offsets around 4 KiB, 64 KiB, the middle and the end; each read like in 'files' (byte-wise, single read, bufio, pipe, every selected split point, block partitions of 4096 and 65536 bytes, each with and without the last bytes delivered together with io.EOF, with and without smf.Log); same differential oracle",
+	nil, run)
+
+func TestEnumBigPayloads(t *testing.T) {
+	big.R.Exhaustive = true
+	i := 0
+	for _, kind := range []smfref.Event{{Status: 0xF0}, {Status: 0xF7}, {Status: 0xFF, MetaType: 0x01}, {Status: 0xFF, MetaType: 0x7F}} {
+		for _, n := range []int{65537, 70000, 140000} {
+			e := kind
+			e.Delta = 3
+			e.Data = make([]byte, n)
+			for j := range e.Data {
+				e.Data[j] = byte(j*5) & 0x7F
+			}
+			if e.Status == 0xF0 {
+				e.Data[n-1] = 0xF7
+			}
+			eot := smfref.Event{Status: 0xFF, MetaType: 0x2F}
+			f := smfref.File{Format: 1, NTracks: 2, Division: 96, Chunks: []smfref.Chunk{
+				{IsTrack: true, Events: []smfref.Event{{Status: 0x90, Data: []byte{60, 100}}, {Delta: 5, Status: 0x80, Data: []byte{60, 0}}, eot}},
+				{Type: [4]byte{'X', 'F', 'I', 'H'}, Data: []byte{1, 2, 3, 4, 5, 6, 7, 8, 9, 10, 11, 12, 13, 14, 15, 16, 17, 18, 19, 20}},
+				{IsTrack: true, Events: []smfref.Event{{Status: 0xC1, Data: []byte{7}}, e, {Delta: 1, Status: 0x91, Data: []byte{1, 2}}, eot}},
+			}}
+			full := smfref.Build(f)
+			start := len(full) - n - 12 // a little before the payload
+			for _, off := range []int{-1, start + 14, start + 4095, start + 4108, start + 65535 + 12, start + 65536 + 12, start + 65537 + 12, start + n/2, len(full) - 9, len(full) - 1} {
+				i++
+				if i%ev.Shards() != ev.Shard() {
+					continue
+				}
+				if off >= len(full) {
+					continue
+				}
+				c := Case{Grammar: &f, TruncAt: off}
+				var blocks4k, blocks64k []int
+				for x := 4096; x < len(full); x += 4096 {
+					blocks4k = append(blocks4k, x)
+				}
+				for x := 65536; x < len(full); x += 65536 {
+					blocks64k = append(blocks64k, x)
+				}
+				c.Random = [][]int{blocks4k, blocks64k}
+				t.Run(fmt.Sprintf("%02X-%02X-%d-trunc%d", e.Status, e.MetaType, n, off), func(t *testing.T) { big.One(t, c) })
+			}
+		}
+	}
+}
 
 func TestReplay(t *testing.T) { ev.ReplayAll(t) }
